@@ -1665,7 +1665,9 @@ def init_pool(H):
     rng, Q, W = H.rng, H.Q, H.world
     sig = []
 
-    def perturb(x, eps=0.05):
+    def perturb(x):
+        # far from physical, or off by an amount that only some tolerances accept
+        eps = float(rng.choice([0.05, 0.05, 1e-5, 1e-8]))
         return x + eps * rng.standard_normal(np.shape(x))
 
     with H.hs.paused():
